@@ -1,14 +1,416 @@
 import Nv.Model.C12
 /-!
-C12 — property theorems for the queues (model: `Nv.Model.C12`).
+C12 — property theorems for the six queues (model: `Nv.Model.C12`).
+
+The statements quantify over every queue state (any contents, any capacity, open or closed) and every operation /
+operation sequence; `c` ranges over `Proved` (the shapes found in the source today).
 -/
 namespace Nv.C12
 
 example : Proved Cfg.expected := by decide
 
-/-- a closed pipe queue / MQ refuses every ordinary add -/
-theorem q_closed_refuses_add (sh : Shape) (s : LQ) (x : Nat) (hsh : sh = Shape.expected) (hc : s.closed = true) :
-    addReq sh s x = (s, .closed) := by
-  subst hsh; simp [addReq, Shape.expected, hc]
+def LQ.items (s : LQ) : List Nat := s.ctrl ++ s.req
+
+/-! ### capacity: an ordinary add is refused exactly when the queue holds its capacity (0 = unbounded) -/
+
+theorem q_full_iff (s : LQ) (x : Nat) (hc : s.closed = false) :
+    ((addReq Shape.expected s x).2 = .full ↔ (0 < s.reqCap ∧ s.reqCap ≤ s.req.length)) ∧
+    ((addReq Shape.expected s x).2 = .ok ↔ ¬ (0 < s.reqCap ∧ s.reqCap ≤ s.req.length)) := by
+  unfold addReq fullAt
+  by_cases h1 : 0 < s.reqCap <;> by_cases h2 : s.reqCap ≤ s.req.length <;> simp [Shape.expected, hc, h1, h2]
+
+theorem mq_ctrl_full_iff (s : LQ) (x : Nat) (hc : s.closed = false) :
+    ((addCtrl Shape.expected s x).2 = .ctrlFull ↔ (0 < s.ctrlCap ∧ s.ctrlCap ≤ s.ctrl.length)) ∧
+    ((addCtrl Shape.expected s x).2 = .ok ↔ ¬ (0 < s.ctrlCap ∧ s.ctrlCap ≤ s.ctrl.length)) := by
+  unfold addCtrl fullAt
+  by_cases h1 : 0 < s.ctrlCap <;> by_cases h2 : s.ctrlCap ≤ s.ctrl.length <;> simp [Shape.expected, hc, h1, h2]
+
+/-- a prior add is never refused for capacity: on an open queue it always succeeds and goes to the front -/
+theorem q_prior_unbounded (s : LQ) (x : Nat) (hc : s.closed = false) :
+    addPrior Shape.expected s x = ({ s with req := x :: s.req }, .ok) ∧
+    addPriorCtrl Shape.expected s x = ({ s with ctrl := x :: s.ctrl }, .ok) := by
+  simp [addPrior, addPriorCtrl, Shape.expected, hc]
+
+/-- an accepted ordinary add goes to the back -/
+theorem q_add_back (s : LQ) (x : Nat) (h : (addReq Shape.expected s x).2 = .ok) :
+    (addReq Shape.expected s x).1 = { s with req := s.req ++ [x] } := by
+  unfold addReq at h ⊢
+  simp only [Shape.expected, if_true] at h ⊢
+  split at h <;> try (simp at h)
+  split at h <;> try (simp at h)
+  rename_i h1 h2; simp [h1, h2]
+
+theorem mq_addCtrl_back (s : LQ) (x : Nat) (h : (addCtrl Shape.expected s x).2 = .ok) :
+    (addCtrl Shape.expected s x).1 = { s with ctrl := s.ctrl ++ [x] } := by
+  unfold addCtrl at h ⊢
+  simp only [Shape.expected, if_true] at h ⊢
+  split at h <;> try (simp at h)
+  split at h <;> try (simp at h)
+  rename_i h1 h2; simp [h1, h2]
+
+/-! ### close semantics -/
+
+/-- a closed pipe queue / MQ refuses every add, leaving the state unchanged (even when it is also full) -/
+theorem q_closed_refuses (s : LQ) (x : Nat) (hc : s.closed = true) :
+    addReq Shape.expected s x = (s, .closed) ∧ addPrior Shape.expected s x = (s, .closed) ∧
+    addCtrl Shape.expected s x = (s, .closed) ∧ addPriorCtrl Shape.expected s x = (s, .closed) := by
+  simp [addReq, addPrior, addCtrl, addPriorCtrl, Shape.expected, hc]
+
+/-- a closed SyncQueue silently drops every push -/
+theorem syncq_closed_drops (s : LQ) (x : Nat) (hc : s.closed = true) :
+    stepSync SyncShape.expected s (.add x) = (s, .ok) := by
+  simp [stepSync, syncPush, SyncShape.expected, hc]
+
+/-- after close, `Pop` fails even if items remain (state unchanged) -/
+theorem q_pop_after_close (s : LQ) (hc : s.closed = true) : popNow Shape.expected false s = some (s, .closed) := by
+  unfold popNow
+  cases s.isEmpty <;> simp [Shape.expected, hc]
+
+/-- `PopAnyway` hands out the next item whether or not the queue is closed; on an empty queue: closed → `closed`,
+    open → the caller blocks -/
+theorem q_popAnyway_spec (s : LQ) :
+    popNow Shape.expected true s =
+      match s.ctrl, s.req with
+      | c :: cs, _ => some ({ s with ctrl := cs }, .val c)
+      | [], r :: rs => some ({ s with req := rs }, .val r)
+      | [], [] => if s.closed then some (s, .closed) else none := by
+  unfold popNow takeFront LQ.isEmpty
+  cases hc : s.ctrl <;> cases hr : s.req <;> simp [Shape.expected]
+
+/-- on an open queue `Pop` behaves like `PopAnyway` -/
+theorem q_pop_open (s : LQ) (hc : s.closed = false) : popNow Shape.expected false s = popNow Shape.expected true s := by
+  unfold popNow; simp [hc]
+
+/-- draining with `PopAnyway`: all control items in order, then all request items in order, then `closed` -/
+def drainAnyway : Nat → LQ → List Out
+  | 0, _ => []
+  | n + 1, s => match popNow Shape.expected true s with
+    | some r => r.2 :: drainAnyway n r.1
+    | none => [.wouldBlock]
+
+theorem q_drain_after_close (s : LQ) (hc : s.closed = true) :
+    drainAnyway (s.ctrl.length + s.req.length + 1) s = (s.ctrl ++ s.req).map .val ++ [.closed] := by
+  obtain ⟨k, ctrl, req, cc, rc, cl, clr⟩ := s
+  simp only at hc; subst hc
+  induction ctrl with
+  | nil =>
+    induction req with
+    | nil => simp [drainAnyway, q_popAnyway_spec]
+    | cons r rs ih =>
+      simp only [List.length_nil, Nat.zero_add, List.length_cons, List.nil_append, List.map_cons, List.cons_append]
+      simp only [List.length_nil, Nat.zero_add, List.nil_append] at ih
+      rw [drainAnyway, q_popAnyway_spec]
+      simp only
+      rw [ih]
+  | cons c cs ih =>
+    have : (c :: cs).length + req.length + 1 = (cs.length + req.length + 1) + 1 := by simp; omega
+    rw [this, drainAnyway, q_popAnyway_spec]
+    simp only [List.cons_append, List.map_cons]
+    rw [ih]
+
+/-- MQ: control messages before requests — whenever a control item is queued, the next pop returns the oldest
+    control item, whatever the request list holds -/
+theorem mq_ctrl_first (s : LQ) (c : Nat) (cs : List Nat) (hs : s.ctrl = c :: cs) (anyway : Bool)
+    (ho : anyway = true ∨ s.closed = false) :
+    popNow Shape.expected anyway s = some ({ s with ctrl := cs }, .val c) := by
+  unfold popNow takeFront LQ.isEmpty
+  rcases ho with h | h <;> simp [Shape.expected, hs, h]
+
+/-- SyncQueue: `Pop`/`TryPop` hand out the remaining items in order after close, and only then report closed -/
+theorem syncq_drain_spec (s : LQ) :
+    syncPopNow s = (match s.req with
+      | x :: r => some ({ s with req := r }, .val x)
+      | [] => if s.closed then some (s, .nil) else none) ∧
+    syncTryPop SyncShape.expected s = (match s.req with
+      | x :: r => ({ s with req := r }, .val x)
+      | [] => if s.closed then (s, .closed) else (s, .none)) := by
+  unfold syncPopNow syncTryPop
+  cases s.req <;> simp [SyncShape.expected]
+
+/-- try-close succeeds exactly when the queue is empty (an already closed queue reports true) -/
+theorem mq_tryclose_iff (s : LQ) (hc : s.closed = false) :
+    ((tryClose s).2 = .bool true ↔ (s.ctrl = [] ∧ s.req = [])) ∧
+    ((tryClose s).1.closed = true ↔ (s.ctrl = [] ∧ s.req = [])) ∧
+    ((tryClose s).2 = .bool true ∨ (tryClose s).2 = .bool false) := by
+  unfold tryClose LQ.isEmpty
+  cases h1 : s.ctrl <;> cases h2 : s.req <;> simp [hc]
+
+theorem mq_tryclose_closed (s : LQ) (hc : s.closed = true) : tryClose s = (s, .bool true) := by
+  simp [tryClose, hc]
+
+/-- try-clear succeeds exactly when the queue is closed and empty (an already cleared queue reports true) -/
+theorem mq_tryclear_iff (s : LQ) (hc : s.cleared = false) :
+    ((tryClear s).2 = .bool true ↔ (s.closed = true ∧ s.ctrl = [] ∧ s.req = [])) ∧
+    ((tryClear s).1.cleared = true ↔ (s.closed = true ∧ s.ctrl = [] ∧ s.req = [])) := by
+  unfold tryClear LQ.isEmpty
+  cases h0 : s.closed <;> cases h1 : s.ctrl <;> cases h2 : s.req <;> simp [hc]
+
+/-! ### FIFO over histories (pipe queues): adds at the back, prior adds at the front, pops from the front -/
+
+/-- ordinary adds on an open unbounded queue are all accepted and queue up at the back in call order -/
+theorem q_run_adds (b : Bool) (xs : List Nat) (s : LQ) (hc : s.closed = false) (hu : s.reqCap = 0) :
+    runOps (stepPipe Shape.expected b) s (xs.map .add) = ({ s with req := s.req ++ xs }, xs.map (fun _ => .ok)) := by
+  induction xs generalizing s with
+  | nil => simp [runOps]
+  | cons x xs ih =>
+    have h1 : stepPipe Shape.expected b s (.add x) = ({ s with req := s.req ++ [x] }, .ok) := by
+      simp [stepPipe, addReq, Shape.expected, hc, hu, fullAt]
+    simp only [List.map_cons, runOps, h1]
+    rw [ih { s with req := s.req ++ [x] } hc hu]
+    simp
+
+/-- prior adds are accepted whatever the bound and end up in front, the latest first -/
+theorem q_run_priors (b : Bool) (xs : List Nat) (s : LQ) (hc : s.closed = false) :
+    runOps (stepPipe Shape.expected b) s (xs.map .prior) = ({ s with req := xs.reverse ++ s.req }, xs.map (fun _ => .ok)) := by
+  induction xs generalizing s with
+  | nil => simp [runOps]
+  | cons x xs ih =>
+    have h1 : stepPipe Shape.expected b s (.prior x) = ({ s with req := x :: s.req }, .ok) := by
+      simp [stepPipe, addPrior, Shape.expected, hc]
+    simp only [List.map_cons, runOps, h1]
+    rw [ih { s with req := x :: s.req } hc]
+    simp
+
+/-- `n` pops (`Pop` on an open queue, or `PopAnyway` on any) hand out the first `n` queued items in queue order -/
+theorem q_run_pops (b : Bool) (op : Op) (n : Nat) (s : LQ) (hs : s.ctrl = []) (hn : n ≤ s.req.length)
+    (hop : (op = .pop ∧ s.closed = false) ∨ op = .popAnyway) :
+    runOps (stepPipe Shape.expected b) s (List.replicate n op) =
+      ({ s with req := s.req.drop n }, (s.req.take n).map .val) := by
+  induction n generalizing s with
+  | zero => simp [runOps]
+  | succ n ih =>
+    cases hr : s.req with
+    | nil => rw [hr] at hn; simp at hn
+    | cons x r =>
+      have h1 : stepPipe Shape.expected b s op = ({ s with req := r }, .val x) := by
+        rcases hop with ⟨rfl, hc⟩ | rfl <;>
+          simp [stepPipe, popNow, takeFront, orBlock, LQ.isEmpty, Shape.expected, hs, hr, *]
+      simp only [List.replicate_succ, runOps, h1]
+      rw [ih { s with req := r } hs (by rw [hr] at hn; simp at hn ⊢; omega) (by
+        rcases hop with ⟨h, hc⟩ | h
+        · exact Or.inl ⟨h, hc⟩
+        · exact Or.inr h)]
+      simp
+
+/-- **FIFO.** From an empty open unbounded pipe queue: ordinary adds `xs`, prior adds `ps`, then pops — the pops
+    hand out the prior items latest-first, then `xs` in call order. -/
+theorem q_fifo (b : Bool) (xs ps : List Nat) (n : Nat) (k : Kind) (hn : n ≤ ps.length + xs.length) :
+    outs (stepPipe Shape.expected b) (LQ.new k 0 0) (xs.map .add ++ ps.map .prior ++ List.replicate n .pop) =
+      xs.map (fun _ => .ok) ++ ps.map (fun _ => .ok) ++ ((ps.reverse ++ xs).take n).map .val := by
+  have e1 := q_run_adds b xs (LQ.new k 0 0) rfl rfl
+  have e2 := q_run_priors b ps { LQ.new k 0 0 with req := (LQ.new k 0 0).req ++ xs } rfl
+  have e3 := q_run_pops b .pop n { LQ.new k 0 0 with req := ps.reverse ++ ((LQ.new k 0 0).req ++ xs) } rfl
+    (by simp [LQ.new]; omega) (Or.inl ⟨rfl, rfl⟩)
+  have fA : final (stepPipe Shape.expected b) (LQ.new k 0 0) (xs.map .add) =
+      { LQ.new k 0 0 with req := (LQ.new k 0 0).req ++ xs } := by simp [final, e1]
+  have fB : final (stepPipe Shape.expected b) (LQ.new k 0 0) (xs.map .add ++ ps.map .prior) =
+      { LQ.new k 0 0 with req := ps.reverse ++ ((LQ.new k 0 0).req ++ xs) } := by
+    rw [final_append, fA]; simp [final, e2]
+  rw [outs_append, outs_append, fB, fA]
+  simp only [outs, e1, e2, e3]
+  simp [LQ.new]
+
+/-! ### conservation: nothing is lost, duplicated or invented -/
+
+def popCount (y : Nat) : Out → Nat
+  | .val v => if v = y then 1 else 0
+  | _ => 0
+
+/-- 1 when the step is an add of `y` that was accepted (SyncQueue: not dropped because closed) -/
+def addCount (y : Nat) (s : LQ) (op : Op) (o : Out) : Nat :=
+  match op with
+  | .add x | .prior x | .addCtrl x | .priorCtrl x =>
+    if x = y ∧ o = .ok ∧ (s.kind = .syncq → s.closed = false) then 1 else 0
+  | _ => 0
+
+theorem step_conservation (s : LQ) (op : Op) (y : Nat) :
+    (step Cfg.expected s op).1.items.count y + popCount y (step Cfg.expected s op).2 =
+      s.items.count y + addCount y s op (step Cfg.expected s op).2 := by
+  obtain ⟨k, ctrl, req, cc, rc, cl, clr⟩ := s
+  cases k <;> cases op <;>
+    simp only [step, Cfg.expected, stepPipe, stepMQ, stepSync, addReq, addPrior, addCtrl, addPriorCtrl, popNow, takeFront,
+      orBlock, closeQ, tryClose, tryClear, syncPush, syncPopNow, syncTryPop, Shape.expected, SyncShape.expected,
+      LQ.items, LQ.isEmpty, popCount, addCount, if_true, Bool.false_and, Bool.true_and, Bool.not_true, Bool.not_false] <;>
+    (try cases cl) <;> (try cases ctrl) <;> (try cases req) <;>
+    simp [List.count_cons, List.count_append] <;> (try split) <;>
+    (try simp_all [List.count_cons, List.count_append]) <;> (try omega)
+
+def addedIn (y : Nat) : LQ → List Op → Nat
+  | _, [] => 0
+  | s, op :: r => addCount y s op (step Cfg.expected s op).2 + addedIn y (step Cfg.expected s op).1 r
+
+def poppedIn (y : Nat) : LQ → List Op → Nat
+  | _, [] => 0
+  | s, op :: r => popCount y (step Cfg.expected s op).2 + poppedIn y (step Cfg.expected s op).1 r
+
+/-- **Conservation.** For every history on every list queue and every item value `y`: what is in the queue at the
+    end plus what was handed out equals what was there at the start plus what was accepted. -/
+theorem q_conservation (c : Cfg) (hc : Proved c) (ops : List Op) (s : LQ) (y : Nat) :
+    (final (step c) s ops).items.count y + poppedIn y s ops = s.items.count y + addedIn y s ops := by
+  cases hc
+  induction ops generalizing s with
+  | nil => simp [poppedIn, addedIn]
+  | cons op r ih =>
+    have h1 := step_conservation s op y
+    have h2 := ih (step Cfg.expected s op).1
+    simp only [final_cons, poppedIn, addedIn]
+    omega
+
+/-! ### PriQueue -/
+
+/-- `m` pops no later than `e`: higher priority, or the same priority and pushed no later -/
+def Before (m e : Entry) : Prop := e.prio < m.prio ∨ (e.prio = m.prio ∧ m.seq ≤ e.seq)
+
+theorem before_refl (m : Entry) : Before m m := Or.inr ⟨rfl, Nat.le_refl _⟩
+
+theorem before_trans {a b c : Entry} (h1 : Before a b) (h2 : Before b c) : Before a c := by
+  unfold Before at *; omega
+
+theorem less_true {e b : Entry} (h : less PriShape.expected e b = true) : Before e b := by
+  unfold less at h; unfold Before
+  simp only [PriShape.expected, if_true] at h
+  split at h <;> simp at h <;> omega
+
+theorem less_false {e b : Entry} (h : less PriShape.expected e b = false) : Before b e := by
+  unfold less at h; unfold Before
+  simp only [PriShape.expected, if_true] at h
+  split at h <;> simp at h <;> omega
+
+theorem best_spec (b : Entry) (l : List Entry) :
+    Before (best PriShape.expected b l) b ∧ (∀ e ∈ l, Before (best PriShape.expected b l) e) ∧
+    (best PriShape.expected b l = b ∨ best PriShape.expected b l ∈ l) := by
+  induction l generalizing b with
+  | nil => exact ⟨before_refl b, (fun _ h => nomatch h), Or.inl rfl⟩
+  | cons e r ih =>
+    simp only [best]
+    cases hl : less PriShape.expected e b with
+    | true =>
+      have := ih e
+      simp only [if_true]
+      refine ⟨before_trans this.1 (less_true hl), fun x hx => ?_, ?_⟩
+      · rcases List.mem_cons.1 hx with rfl | hx
+        · exact this.1
+        · exact this.2.1 x hx
+      · rcases this.2.2 with h | h
+        · right; rw [h]; exact List.mem_cons_self
+        · right; exact List.mem_cons_of_mem _ h
+    | false =>
+      have := ih b
+      simp only [Bool.false_eq_true, if_false]
+      refine ⟨this.1, fun x hx => ?_, ?_⟩
+      · rcases List.mem_cons.1 hx with rfl | hx
+        · exact before_trans this.1 (less_false hl)
+        · exact this.2.1 x hx
+      · rcases this.2.2 with h | h
+        · left; exact h
+        · right; exact List.mem_cons_of_mem _ h
+
+/-- **Priority order.** `Pop` returns nil exactly on an empty queue; otherwise it removes an entry of the queue
+    that no other entry precedes: no entry has a higher priority, and none of the same priority was pushed earlier. -/
+theorem priq_order (s : PQ) :
+    (s.entries = [] → pqPop PriShape.expected s = (s, none)) ∧
+    (s.entries ≠ [] → ∃ m, (pqPop PriShape.expected s).2 = some m ∧ m ∈ s.entries ∧
+      (pqPop PriShape.expected s).1 = { s with entries := s.entries.erase m } ∧
+      ∀ e ∈ s.entries, e.prio < m.prio ∨ (e.prio = m.prio ∧ m.seq ≤ e.seq)) := by
+  unfold pqPop
+  cases he : s.entries with
+  | nil => simp
+  | cons b l =>
+    refine ⟨(fun h => nomatch h), fun _ => ⟨best PriShape.expected b l, rfl, ?_, rfl, ?_⟩⟩
+    · rcases (best_spec b l).2.2 with h | h
+      · rw [h]; exact List.mem_cons_self
+      · exact List.mem_cons_of_mem _ h
+    · intro e hm
+      rcases List.mem_cons.1 hm with rfl | hm
+      · exact (best_spec e l).1
+      · exact (best_spec b l).2.1 e hm
+
+/-- a bounded priority queue refuses a push exactly when it already holds its capacity; an accepted push appends an
+    entry stamped with the next sequence number -/
+theorem priq_full_iff (s : PQ) (x : Nat) (p : Int) :
+    ((pqPush PriShape.expected s x p).2 = .full ↔ s.cap ≤ (s.entries.length : Int)) ∧
+    (¬ s.cap ≤ (s.entries.length : Int) →
+      pqPush PriShape.expected s x p = ({ s with curSeq := s.curSeq + 1, entries := s.entries ++ [⟨p, s.curSeq + 1, x⟩] }, .ok)) := by
+  unfold pqPush pqFull
+  by_cases h : s.cap ≤ (s.entries.length : Int) <;> simp [PriShape.expected, h]
+
+/-- sequence numbers are fresh: every queued entry was stamped no later than `curSeq`, and stamps are distinct -/
+def PWF (s : PQ) : Prop := (∀ e ∈ s.entries, e.seq ≤ s.curSeq) ∧ (s.entries.map (·.seq)).Nodup
+
+theorem priq_wf_step (s : PQ) (op : POp) (h : PWF s) : PWF (pstep PriShape.expected s op).1 := by
+  cases op with
+  | push x p =>
+    simp only [pstep]
+    by_cases hf : s.cap ≤ (s.entries.length : Int)
+    · have : pqPush PriShape.expected s x p = (s, .full) := by simp [pqPush, pqFull, PriShape.expected, hf]
+      rw [this]; exact h
+    · rw [(priq_full_iff s x p).2 hf]
+      refine ⟨fun e he => ?_, ?_⟩
+      · simp only [List.mem_append, List.mem_singleton] at he
+        rcases he with he | rfl
+        · have := h.1 e he; simp only; omega
+        · simp
+      · simp only [List.map_append, List.map_cons, List.map_nil]
+        rw [List.nodup_append]
+        refine ⟨h.2, by simp, fun a ha b hb => ?_⟩
+        simp only [List.mem_singleton] at hb
+        obtain ⟨e, he, rfl⟩ := List.mem_map.1 ha
+        have := h.1 e he
+        omega
+  | pop =>
+    have hp : (pstep PriShape.expected s .pop).1 = (pqPop PriShape.expected s).1 := by
+      simp only [pstep]; split <;> rename_i h1 <;> rw [h1]
+    rw [hp]
+    cases he : s.entries with
+    | nil =>
+      have := (priq_order s).1 he
+      rw [this]; exact h
+    | cons b l =>
+      obtain ⟨m, hm, _, hs, _⟩ := (priq_order s).2 (by rw [he]; simp)
+      have hsub : ((pqPop PriShape.expected s).1.entries).Sublist s.entries := by rw [hs]; exact List.erase_sublist
+      have hcs : (pqPop PriShape.expected s).1.curSeq = s.curSeq := by rw [hs]
+      exact ⟨fun e he' => by rw [hcs]; exact h.1 e (hsub.subset he'), (hsub.map _).nodup h.2⟩
+  | len => exact h
+
+/-- FIFO among equal priorities, over every history: the invariant holds after any operation sequence, so an entry
+    pushed later carries a strictly larger stamp than every entry queued at that time (and `priq_order` then pops the
+    earlier one first among equal priorities) -/
+theorem priq_wf_run (cap : Int) (ops : List POp) : PWF (final (pstep PriShape.expected) (PQ.new cap) ops) :=
+  final_inv (pstep PriShape.expected) PWF (fun _ => True) (fun s i h _ => priq_wf_step s i h) ops _
+    ⟨(fun _ h => nomatch h), by simp [PQ.new]⟩ (fun _ _ => trivial)
+
+/-- the stamp `curSeq + 1` given to the next accepted push is larger than every stamp in the queue -/
+theorem priq_push_is_latest (s : PQ) (h : PWF s) :
+    ∀ e ∈ s.entries, e.seq < (s.curSeq + 1) := fun e he => Nat.lt_succ_of_le (h.1 e he)
+
+/-! ### non-vacuity and the mutations of DESIGN Appendix B (the model with that shape violates the property) -/
+
+/-- bound 2: third ordinary add refused, prior add accepted beyond the bound; close with residue; Pop fails,
+    PopAnyway drains in order, then closed -/
+example : outs (step Cfg.expected) (LQ.new .q 0 2)
+    [.add 1, .add 2, .add 3, .prior 4, .pop, .close, .add 5, .pop, .popAnyway, .popAnyway, .popAnyway] =
+    [.ok, .ok, .full, .ok, .val 4, .ok, .closed, .closed, .val 1, .val 2, .closed] := by decide
+
+example : outs (pstep PriShape.expected) (PQ.new 3) [.push 1 1, .push 2 5, .push 3 1, .push 4 5, .pop, .pop, .pop, .pop] =
+    [.ok, .ok, .ok, .full, .val 2, .val 1, .val 3, .nil] := by decide
+
+/-- mutation "AddPriorReq honours the bound": a prior add is refused for capacity -/
+theorem witness_prior_bounded :
+    (addPrior { Shape.expected with priorBounded := true } { LQ.new .q 0 1 with req := [1] } 2).2 = .full := by decide
+
+/-- mutation "pop: drop the checkClose branch": Pop drains after close -/
+theorem witness_pop_ignores_close :
+    popNow { Shape.expected with popChecksClosed := false } false { LQ.new .q 0 0 with req := [1], closed := true }
+      = some ({ LQ.new .q 0 0 with req := [], closed := true }, .val 1) := by decide
+
+/-- mutation "MQ Pop: request list before control list" -/
+theorem witness_req_before_ctrl :
+    (popNow { Shape.expected with ctrlFirst := false } false { LQ.new .mq 0 0 with ctrl := [1], req := [2] }).map (·.2)
+      = some (.val 2) := by decide
+
+/-- mutation "priq Less: seq > for ties": LIFO among equal priorities -/
+theorem witness_tie_newest_first :
+    outs (pstep { PriShape.expected with olderFirstOnTie := false }) (PQ.new 3) [.push 1 0, .push 2 0, .pop] =
+      [.ok, .ok, .val 2] := by decide
 
 end Nv.C12
